@@ -170,6 +170,10 @@ func vLexLE(a, b weight) bool {
 //@   call evaluateMediaQuery#1 assert[import-media-list] arg1 == deviceMediaType
 //@   call evaluateMediaQuery#2 assert[media-block] arg1 == deviceMediaType
 //@   call append#3 assert selectors[0].specificity == specificity && selectors[0].pageType == pageType
+// ... and each is registered with ITS OWN declarations: the page rule with the declarations of the @page body (for
+// every selector of the list), a margin box with the declarations of its own block
+//@   call append#2 assert[page-rule-own-declarations] declarations == callresult(PreprocessDeclarations, 1) && len(declarations) > 0
+//@   call append#3 assert[margin-box-own-declarations] declarations == callresult(PreprocessDeclarations, 2) && len(declarations) > 0 && selectors[0].pseudoType != ""
 //@   unclaimed call-*-pre1 "token lists held in parsed rules contain no nil token: a data invariant of the parser's output that is not tracked through Compound values"
 //@   unclaimed call-parsePageSelectors@1-pre2 "function-block arguments produced by the tokenizer contain no nil token and no identifier or number with an empty representation: a data invariant of the parser's output that is not tracked through Compound values"
 
